@@ -10,7 +10,7 @@ Lemma chk_all_C07 strict quit nosep w e : chk_all strict quit nosep w e = true -
 Proof.
   unfold chk_all, mchk_all. intros H. rewrite chk07_abs.
   apply andb_true_iff in H. destruct H as [H _]. apply andb_true_iff in H. destruct H as [H _].
-  apply andb_true_iff in H. destruct H as [_ H]. exact H.
+  apply andb_true_iff in H. destruct H as [H _]. apply andb_true_iff in H. destruct H as [_ H]. exact H.
 Qed.
 
 Theorem one_followup specs specl typed quit run_empty fuel acts :
